@@ -97,7 +97,7 @@ func runConc(c *Ctx, jobs []*SynJob, items map[string][]*DFeed, G, repeat int) e
 	}
 	raceDir := filepath.Join(c.W.Dir, "racelogs")
 	os.MkdirAll(raceDir, 0777)
-	env := []string{"GORACE=halt_on_error=0 log_path=" + filepath.Join(raceDir, "race")}
+	env := []string{"GORACE=halt_on_error=0 exitcode=0 log_path=" + filepath.Join(raceDir, "race")}
 	// pass 1, its own process: the sequential observations of every input
 	var seqCases []*DCase
 	var live []*SynJob
